@@ -14,9 +14,11 @@ McPeerMsgLists ==
   \cup {<<PM(OpText, 1, TRUE), PM(OpBin, 2, FALSE), PM(OpText, 1, TRUE)>>}
 McFragLensOf(ms)  == {0, 1, 3, 4}
 McMaxFragsOf(ms)  == IF Len(ms) > 1 THEN 2 ELSE 3
-McCtlLensOf(ms)   == {5}
+McCtlLensOf(ms)   == IF Len(ms) = 1 /\ ms[1].size = 6 THEN {5, 20} ELSE {5}
 McMaxCtlOf(ms)    == IF Len(ms) = 2 THEN 0 ELSE 1
 McReadSizesOf(ms) == {0, 1, 3}
+\* a read buffer smaller than a ping (of 20) that the endpoint must cope with, and one that is larger anyway
+McReadBufsOf(ms)  == IF Len(ms) = 1 /\ ms[1].size = 6 THEN {1, 16, 200} ELSE {200}
 \* quick tier: pings only around and inside a single message, two Read sizes
 McMaxCtlOfQ(ms)    == IF Len(ms) = 1 THEN 1 ELSE 0
 McReadSizesOfQ(ms) == {0, 3}
